@@ -34,7 +34,7 @@ ASSUMPTIONS = [
     "documented event model as written in refmodel/dtl.py, ordered.py, unordered.py",
     "ete3 tree container; the in-process CLI driver (validated against real subprocess runs in C12)",
 ]
-BUDGET = {"quick": 300, "thorough": 3000}
+BUDGET = {"quick": 900, "thorough": 3000}
 
 MENU12 = [
     (0, 1, 1, 1, 1), (1, 1, 1, 1, 1), (1, 3, 5, 2, 2), (5, 0, 3, 1, 1), (0, 0, 0, 0, 0), (2, 0, 0, 1, 0),
